@@ -110,3 +110,41 @@ where
         self.dot_xPx = xPx;
     }
 }
+
+// ---------------------------------------------------------------------------
+// verification hooks (add-only, feature gated): read / write access to the
+// crate-private residual fields.
+#[cfg(feature = "verif-hooks")]
+pub mod verif_hooks_residuals {
+    use super::*;
+
+    /// `(rx, rz, rτ, dot_qx, dot_bz, dot_sz, dot_xPx)`
+    #[allow(clippy::type_complexity)]
+    pub fn parts<T: FloatT>(r: &DefaultResiduals<T>) -> (Vec<T>, Vec<T>, T, T, T, T, T) {
+        (r.rx.clone(), r.rz.clone(), r.rτ, r.dot_qx, r.dot_bz, r.dot_sz, r.dot_xPx)
+    }
+
+    /// residual object with prescribed main residuals (other fields as after `new`)
+    pub fn from_parts<T: FloatT>(rx: Vec<T>, rz: Vec<T>, rτ: T, dot_sz: T) -> DefaultResiduals<T> {
+        let mut r = DefaultResiduals::new(rx.len(), rz.len());
+        r.rx = rx;
+        r.rz = rz;
+        r.rτ = rτ;
+        r.dot_sz = dot_sz;
+        r
+    }
+
+    /// overwrite every field with `v`
+    pub fn fill<T: FloatT>(r: &mut DefaultResiduals<T>, v: T) {
+        r.rx.fill(v);
+        r.rz.fill(v);
+        r.rτ = v;
+        r.rx_inf.fill(v);
+        r.rz_inf.fill(v);
+        r.dot_qx = v;
+        r.dot_bz = v;
+        r.dot_sz = v;
+        r.dot_xPx = v;
+        r.Px.fill(v);
+    }
+}
